@@ -693,6 +693,7 @@ def _float_arith0(a, b, op):
         if op == '/':
             cy = conc(y.v)
             if cy is not None and cy != 0: return SFloat(x.v / y.v, dt)
+            if _static_positive(y.v): return SFloat(x.v / y.v, dt)
             yz = y.v == 0
             return SFloat(x.v / y.v, dt, nan=mk_flag(z3.And(yz, x.v == 0)), pinf=mk_flag(z3.And(yz, x.v > 0)), ninf=mk_flag(z3.And(yz, x.v < 0)))
     # general case with flags
@@ -721,6 +722,14 @@ def _float_arith0(a, b, op):
         v = z3.If(yi, z3.RealVal(0), x.v / y.v)
         return SFloat(v, dt, mk_flag(nan), mk_flag(z3.And(inf, pos)), mk_flag(z3.And(inf, z3.Not(pos))))
     raise NotImplementedError(op)
+
+def _static_positive(v):
+    """divisor known >= 1 from registered lower bounds (a symbolic count of rows declared >= 1)"""
+    try:
+        if v.decl().kind() == z3.Z3_OP_TO_REAL:
+            lb = lower_bound(z3.simplify(v.arg(0), som=True)); return lb is not None and lb >= 1
+    except Exception: pass
+    return False
 
 def _float_cmp(x, y, op):
     if not x.special and not y.special:
